@@ -89,9 +89,12 @@ structure S where
   sent : List (Nat × Nat) := []
   /-- ghost: the actors each `multi_call` was asked to call, in request order (one list per group) -/
   mreqs : List (List Nat) := []
+  /-- ghost: every forward `call_and_forward` attempted: (call, target, value, target accepted it) -/
+  fwdlog : List (Nat × Nat × Nat × Bool) := []
   deriving Repr
 
-def init : S := { now := 0, actors := [], calls := [], groups := 0, sups := [], sent := [], mreqs := [] }
+def init : S :=
+  { now := 0, actors := [], calls := [], groups := 0, sups := [], sent := [], mreqs := [], fwdlog := [] }
 
 /-- what the callee's handler does with a dequeued call -/
 inductive Act where
@@ -163,11 +166,28 @@ def deliverForwards (before after : List Call) (actors : List Actor) : List Acto
   newly.foldl (fun acts (f, v) =>
     acts.modify f (fun x => if x.alive && !x.draining then { x with mailbox := x.mailbox ++ [.fwd v] } else x)) actors
 
+/-- The forwards performed by one `resolve`: call number `off + i` forwards iff it was waiting, has
+just become `Success v` and is a forward-call; `acc f` = the target accepted the message. (Ghost
+bookkeeping of exactly the `newly` list of `deliverForwards`, with the call ids kept —
+`Lemmas/RpcForward: deliverForwards_eq_log`.) -/
+def newFwdFrom (acc : Nat → Bool) (g : Call → Call) : Nat → List Call → List (Nat × Nat × Nat × Bool)
+  | _, [] => []
+  | off, b :: rest =>
+    (match b.res, (g b).res, (g b).forward with
+     | none, some (.success v), some f => [(off, f, v, acc f)]
+     | _, _, _ => []) ++ newFwdFrom acc g (off + 1) rest
+
+def acceptingIn (actors : List Actor) (a : Nat) : Bool :=
+  match actors[a]? with
+  | some x => x.alive && !x.draining
+  | none => false
+
 /-- the caller-local reading (each caller looks at the channel in its OWN record): what `resolve`
 amounts to once `rx = p` is known (`Lemmas: resolve_eq_local`) -/
 def resolveLocal (s : S) : S :=
   let calls' := s.calls.map (resolveCall s.now)
-  { s with calls := calls', actors := deliverForwards s.calls calls' s.actors }
+  { s with calls := calls', actors := deliverForwards s.calls calls' s.actors,
+           fwdlog := s.fwdlog ++ newFwdFrom (acceptingIn s.actors) (resolveCall s.now) 0 s.calls }
 
 /-- state of the channel of port `q`, as its receiver sees it -/
 def portLoc (calls : List Call) (q : Nat) : Loc :=
@@ -190,7 +210,8 @@ def resolveVia (now : Nat) (calls : List Call) (c : Call) : Call :=
 
 def resolve (s : S) : S :=
   let calls' := s.calls.map (resolveVia s.now s.calls)
-  { s with calls := calls', actors := deliverForwards s.calls calls' s.actors }
+  { s with calls := calls', actors := deliverForwards s.calls calls' s.actors,
+           fwdlog := s.fwdlog ++ newFwdFrom (acceptingIn s.actors) (resolveVia s.now s.calls) 0 s.calls }
 
 /-- drop every port located in `a`'s mailbox or held by `a` -/
 def dropPortsOf (a : Nat) (c : Call) : Call :=
